@@ -50,6 +50,7 @@ PROPS = {
             "parts": [
                 {"name": "single-fault", "test": "TestC10Faults", "quick_checks": 8, "quick_scale": 1, "thorough_checks": 160, "thorough_shards": 16, "thorough_scale": 2, "thorough_timeout": 7200},
                 {"name": "sequences", "test": "TestC10Sequences", "quick_checks": 150, "thorough_checks": 12000, "thorough_shards": 16},
+                {"name": "idle", "test": "TestC10Idle", "quick_checks": 48, "quick_shards": 16, "thorough_checks": 1600, "thorough_shards": 16},
             ]},
     "C15": {"level": "exploration", "assumptions": ENGINE_ASSUMPTIONS + ["only the built-in same-cluster phase class is compared with in-process phases; the multi-cluster (annotation strategy) controller is exercised under C01/C02/C04/C05 but has no in-process equivalent to compare with"],
             "parts": [{"name": "differential", "test": "TestC15", "quick_checks": 250, "thorough_checks": 16000, "thorough_shards": 16},
